@@ -60,6 +60,8 @@ def exercise(ctx):
     rig = Rig(ctx)
     from google.protobuf import json_format
 
+    poll_prefix = {}
+
     def rest_ok(m):
         return "rest" in ctx.options.get("transport", "") and bool(m.get("http"))
     classes = values.classes_of(ctx.pool)
@@ -90,10 +92,10 @@ def exercise(ctx):
                 code = draw(st.sampled_from(sorted(CODES)))
                 payload = draw(values.message(rdesc, classes, max_depth=2)) if rdesc is not None else None
                 meta = draw(values.message(mdesc, classes, max_depth=2)) if mdesc is not None else None
-                kinds = ["sync", "async"] + (["rest", "rest"] if rest_ok(m) else [])
+                kinds = ["sync", "async"] + (["rest", "rest"] if rest_ok(m) else []) + (["arest", "arest"] if rest_ok(m) and ctx.options.get("async_rest") else [])
                 kind = draw(st.sampled_from(kinds))
-                req = draw(values.message(in_desc, classes, max_depth=1, json_safe=kind == "rest"))
-                if kind == "rest":
+                req = draw(values.message(in_desc, classes, max_depth=1, json_safe=kind in ("rest", "arest")))
+                if kind in ("rest", "arest"):
                     rules = ctx.inner.get("lro_get_rules") or []
                     opname = draw(st.sampled_from(sorted({n for r in rules for n in REST_NAMES[r]}) or REST_DEFAULT_NAMES))
                     # the request has to match the method's primary binding (judged by C04; here it only carries the call)
@@ -111,6 +113,7 @@ def exercise(ctx):
 
             def one(sc, f=f, svc=svc, m=m, path_=path_, annotated=annotated, rdesc=rdesc, mdesc=mdesc, case_r=case_r, case_m=case_m):
                 k, outcome, code, payload, meta, req, kind, opname = sc
+                ctx.cls("client:" + kind)
                 state = {"polls": 0}
 
                 def pack(msg):
@@ -161,7 +164,7 @@ def exercise(ctx):
                     return 200, json_format.MessageToJson(op, descriptor_pool=ctx.pool), {}
                 rig.grpc.respond = respond
                 rig.grpc.take()
-                if kind == "rest":
+                if kind in ("rest", "arest"):
                     rig.http.respond = respond_http
                     rig.http.take()
                 client = rig.client(f, svc, kind)
@@ -197,12 +200,19 @@ def exercise(ctx):
                 calls = rig.grpc.take()
                 polls = [c for c in calls if c["method"] == GETOP]
                 first = [c for c in calls if c["method"] == path_]
-                if kind == "rest":
+                if kind in ("rest", "arest"):
                     if calls:
                         raise Fail("rest-used-grpc", f"{path_} (rest): {len(calls)} gRPC calls made by the REST client", detail)
                     hcalls = rig.http.take()
                     polls = [dict(c, op_name=opname) for c in hcalls if c.get("is_poll")]
                     first = [c for c in hcalls if not c.get("is_poll")]
+                    # the synchronous and the asynchronous REST transport poll the same place (differential; with the default
+                    # rule the prefix comes from the transport)
+                    for c in (polls if not (ctx.inner.get("lro_get_rules") or []) else []):
+                        seen = poll_prefix.setdefault(svc["name"], {})
+                        seen.setdefault(kind, c["path"][: -len(opname)])
+                        if len(set(seen.values())) > 1:
+                            raise Fail("rest-poll-path-differs", f"{path_}: GetOperation is polled under {seen} by the two REST transports of {svc['name']}", detail)
                 if len(first) != 1:
                     raise Fail("call-count", f"{path_} ({kind}): {len(first)} initial calls", detail)
                 if not annotated:
